@@ -58,6 +58,14 @@ func filterRR(rr dns.RR, except uint16, reqDo bool) (filtered dns.RR) {
 			return nil
 		}
 
+		// The extended flags are hop-to-hop data as well.  Reset them and set
+		// the DO bit in accordance with the request, since the upstream request
+		// may have had a different one.
+		opt.Hdr.Ttl = 0
+		if reqDo {
+			opt.SetDo()
+		}
+
 		return rr
 	}
 
